@@ -304,6 +304,30 @@ ANN = 'call("assert:*parser.AnnotationContext", GetChild(m, 0))'
 row(props=["C12"], func=API + "buildRestApiWithParameters", params=["ctx"], kind="emits", target="globalstore:" + API + "requestBodyClass", tag={}, total=2, each={"as": "param"},
     when='exists(AllVariableModifier(param), m, String(call("reflect.TypeOf", GetChild(m, 0))) == "*parser.AnnotationContext" && QualifiedName(%s) != nil && GetText(QualifiedName(%s)) == "RequestBody")' % (ANN, ANN),
     fields={"value": "GetText(TypeType(param))"}, what="the request body type is the type of the parameter that itself carries @RequestBody")
+row(props=["C13"], func="var:pkg/application/arch/tequila.MergeHeaderFunc", params=["input"], kind="returns",
+    expr='ite(contains(input, "."), call("beforeLast", input, "."), input)', what="merging by header maps a type to its package: everything before the last dot (the default package is the empty name)")
+GIT = "pkg/application/git."
+REVN = 'len(call("regexp.(Regexp).FindAllString", global("pkg/application/git.revReg"), text, -1)) == 1'
+row(props=["C14"], func=GIT + "ParseLog", params=["text"], kind="emits", target="globalstore:" + GIT + "currentCommit.Rev", tag={}, total=2, index=0,
+    when=REVN, fields={"value": 'call("regexp.(Regexp).FindStringSubmatch", global("pkg/application/git.revReg"), text)[1]'},
+    what="a line with exactly one revision marker starts a commit, whatever came before it (two headers may follow each other: merges, empty commits)")
+CM = 'call("regexp.(Regexp).FindStringSubmatch", global("pkg/application/git.changeModeReg"), text)'
+row(props=["C14"], func=GIT + "buildChangeMode", params=["text"], kind="emits", target="mapstore:currentFileChangeMap", tag={}, total=1,
+    when='len(%s) > 4 && has(global("pkg/application/git.currentFileChangeMap"), %s[4])' % (CM, CM), fields={"key": CM + "[4]", "value.Mode": CM + "[1]"},
+    what="a create/delete summary line sets the mode of the change recorded under exactly that path")
+row(props=["C14"], func=GIT + "buildChangeMode", params=["text"], kind="emits", target="global:" + GIT + "currentFileChanges", tag={"Mode": "delete"}, total=1,
+    when='len(%s) > 4 && !has(global("pkg/application/git.currentFileChangeMap"), %s[4]) && %s[1] == "delete"' % (CM, CM, CM), fields={"File": CM + "[4]"},
+    what="a deletion without a numstat line is recorded under the path of the summary line")
+DL = 'anycall("outparam:encoding/json.Unmarshal")'
+row(props=["C16"], func="pkg/domain/cloc.BuildLanguageMap", params=["languageMap", "keys", "filePath"], kind="emits", target="mapstore:inner", tag={}, total=2, index=0, each={"as": "key"},
+    when="exists(%s, l, key == l.Name)" % DL, fields={"key": "key"}, what="a header language gets the directory's figures ⇔ the directory's summary lists it, wherever in that list")
+row(props=["C16"], func="pkg/domain/cloc.BuildLanguageMap", params=["languageMap", "keys", "filePath"], kind="emits", target="mapstore:inner", tag={}, total=2, index=1, each={"as": "key"},
+    when="!exists(%s, l, key == l.Name)" % DL, fields={"key": "key"}, what="a header language the directory does not contain gets an empty cell")
+PYN = 'ite(OPEN_PAREN(From_stmt_as_names(ctx)) != nil, GetText(Import_as_names(From_stmt_as_names(ctx))), GetText(From_stmt_as_names(ctx)))'
+row(props=["C20"], func="pkg/infrastructure/ast/ast_python.(PythonIdentListener).EnterFrom_stmt", params=["s", "ctx"], kind="callarg", callee="strings.Split", arg=0,
+    expr=PYN, what="the imported names are split out of the name list without its parentheses")
+row(props=["C20"], func="pkg/infrastructure/ast/ast_python.(PythonIdentListener).EnterFrom_stmt", params=["s", "ctx"], kind="callguard", callee="strings.Split",
+    expr='contains(%s, ",")' % PYN, what="a from-import with several names records each of them")
 
 json.dump({"e5": rows}, open(os.path.join(os.path.dirname(os.path.dirname(os.path.abspath(__file__))), "spec", "e5.json"), "w"), indent=1, ensure_ascii=False)
 print(len(rows), "rows")
